@@ -127,6 +127,13 @@ Proof.
            (eq_refl : Gen.Facts.error_sort_when_muted = true) H1 H2 H3 H4 ff a).
 Qed.
 
+(* the whole-run theorems are about a model that finalises -- sorts -- the statistics in EVERY run before they are written or compared;
+   the code does the same: in Controller::run the finalize call is unconditional and precedes write_stats and the comparison with an input
+   statistics file, whether or not a report is printed (view, filtered data on stdout, check).  Fact re-read from controller.rs on every
+   run; seed C05-K finalised only `if view().is_some()`, leaving the file of a `check ... -o stdout` run in arrival order *)
+Theorem C05_statistics_finalised_in_every_run : Gen.Facts.stats_finalized_before_write_and_compare = true.
+Proof. exact eq_refl. Qed.
+
 Print Assumptions C05_collector_schedule_independent.
 Print Assumptions C05_sort_is_the_codes.
 Print Assumptions C05_stable_sort_determined.
@@ -138,3 +145,4 @@ Print Assumptions C05_run_streams_ok.
 Print Assumptions C05_whole_run_nonvacuous.
 Print Assumptions C05_layout_proviso_needed.
 Print Assumptions C05_reportless_run.
+Print Assumptions C05_statistics_finalised_in_every_run.
